@@ -146,12 +146,14 @@ def check_reaction(ctx, r, kind, tag):
             ctx.violation("parse-bonds", wit, f"{side} bonds differ from the reference reader")
             return
     its = ITSConstruction().ITSGraph(G, H)
-    g2, h2 = its_decompose(its)
-    ctx.count("decompose_checked")
-    for name, orig, dec in (("reactant", G, g2), ("product", H, h2)):
-        p = graphs_equal(orig, dec)
-        if p:
-            ctx.violation("decompose", wit, f"its_decompose does not return the original {name} graph: {p}")
+    for flag in (False, True):
+        its_f = its if not flag else ITSConstruction().ITSGraph(G, H, ignore_aromaticity=True)
+        g2, h2 = its_decompose(its_f)
+        ctx.count("decompose_checked")
+        for name, orig, dec in (("reactant", G, g2), ("product", H, h2)):
+            p = graphs_equal(orig, dec)
+            if p:
+                ctx.violation("decompose", {**wit, "ignore_aromaticity": flag}, f"its_decompose (ITS built with ignore_aromaticity={flag}) does not return the original {name} graph: {p}")
     its2 = rsmi_to_its(r)
     if WG.gdigest(its2) != WG.gdigest(its):
         # same function of the same input through the documented route
@@ -265,7 +267,7 @@ def check_synthetic(ctx, G, H, tag):
 
     wit = {"G": WG.describe(G), "H": WG.describe(H)}
     ctx.count("synthetic_pairs")
-    for kw in ({}, {"balance_its": True}, {"store": True}):
+    for kw in ({}, {"balance_its": True}, {"store": True}, {"ignore_aromaticity": True}):
         its = ITSConstruction().ITSGraph(G, H, **kw)
         g2, h2 = its_decompose(its)
         ctx.count("decompose_checked")
